@@ -343,8 +343,28 @@ Definition seg_step (cur : option xfer) (is_end : bool) (idx : N) (d : bytes)
     | None => (Some x', None)
     end.
 
-Definition key := (N * N)%type.          (* (conversation, xfer_num) *)
-Definition key_eqb (a b : key) : bool := (fst a =? fst b) && (snd a =? snd b).
+(** [EthernetChannel]: the dataclass fields in declaration order; its [key]
+    is [astuple(self)], i.e. ALL of them (Gen/BtpuBudget.v [key_fields],
+    [C20_tie_key]).  Addresses are the 48-bit values of the MAC octets. *)
+Record chan := mkChan { c_if : N; c_peer : N; c_local : N; c_vlan : option N }.
+
+Definition opt_eqb (a b : option N) : bool :=
+  match a, b with
+  | None, None => true
+  | Some x, Some y => x =? y
+  | _, _ => false
+  end.
+
+Definition chan_eqb (a b : chan) : bool :=
+  (c_if a =? c_if b) && (c_peer a =? c_peer b) && (c_local a =? c_local b)
+  && opt_eqb (c_vlan a) (c_vlan b).
+
+(** A channel for examples. *)
+Definition chan1 : chan := mkChan 1 1 255 None.
+
+(** Key of the table of transfers in progress: [(conv.key, xfer_num)]. *)
+Definition key := (chan * N)%type.
+Definition key_eqb (a b : key) : bool := chan_eqb (fst a) (fst b) && (snd a =? snd b).
 
 Fixpoint plookup (k : key) (l : list (key * xfer)) : option xfer :=
   match l with
@@ -368,18 +388,18 @@ Record rx := mkRx {
   r_prog : list (key * xfer);     (* _rx_progres *)
   r_queue : list (N * bytes);     (* _rx_queue: transfer id -> data *)
   r_next : N;                     (* _rx_id *)
-  r_signals : list (N * N);       (* recv_bundle_finished(bid, length), oldest first *)
+  r_signals : list (N * N * N);   (* recv_bundle_finished(bid, length, {address: peer}), oldest first *)
   r_timers : N                    (* glib.timeout_add calls so far *)
 }.
 
 Definition rx_init : rx := mkRx [] [] 0 [] 0.
 
 (** [_add_rx_item] *)
-Definition add_rx (st : rx) (d : bytes) : rx :=
+Definition add_rx (conv : chan) (st : rx) (d : bytes) : rx :=
   mkRx (r_prog st) (r_queue st ++ [(r_next st, d)]) (r_next st + 1)
-       (r_signals st ++ [(r_next st, blen d)]) (r_timers st).
+       (r_signals st ++ [(r_next st, blen d, c_peer conv)]) (r_timers st).
 
-Definition recv_seg (conv : N) (st : rx) (is_end : bool) (x idx : N) (d : bytes) : rx * bool :=
+Definition recv_seg (conv : chan) (st : rx) (is_end : bool) (x idx : N) (d : bytes) : rx * bool :=
   match d with
   | [] => (st, true)       (* no Raw layer under the transfer header: `.load` raises *)
   | _ :: _ =>
@@ -389,7 +409,7 @@ Definition recv_seg (conv : N) (st : rx) (is_end : bool) (x idx : N) (d : bytes)
       let timers := if fresh then r_timers st + 1 else r_timers st in
       match seg_step cur is_end idx d with
       | (_, Some full) =>
-          (add_rx (mkRx (pdel k (r_prog st)) (r_queue st) (r_next st) (r_signals st) timers) full, false)
+          (add_rx conv (mkRx (pdel k (r_prog st)) (r_queue st) (r_next st) (r_signals st) timers) full, false)
       | (Some x', None) =>
           (mkRx (pset k x' (r_prog st)) (r_queue st) (r_next st) (r_signals st) timers, false)
       | (None, None) => (st, false)
@@ -397,15 +417,15 @@ Definition recv_seg (conv : N) (st : rx) (is_end : bool) (x idx : N) (d : bytes)
   end.
 
 (** One message; the boolean says an exception left [_recv_msg]. *)
-Definition recv_msg (conv : N) (st : rx) (m : msg) : rx * bool :=
+Definition recv_msg (conv : chan) (st : rx) (m : msg) : rx * bool :=
   match view m with
-  | CBundle d => (add_rx st d, false)      (* an empty BundlePdu never gets here: see [view] *)
+  | CBundle d => (add_rx conv st d, false)      (* an empty BundlePdu never gets here: see [view] *)
   | CSeg x i d => recv_seg conv st false x i d
   | CEnd x i d => recv_seg conv st true x i d
   | _ => (st, false)
   end.
 
-Fixpoint recv_msgs (conv : N) (st : rx) (ms : list msg) : rx * bool :=
+Fixpoint recv_msgs (conv : chan) (st : rx) (ms : list msg) : rx * bool :=
   match ms with
   | [] => (st, false)
   | m :: t =>
@@ -417,13 +437,13 @@ Fixpoint recv_msgs (conv : N) (st : rx) (ms : list msg) : rx * bool :=
 
 (** [_recv_msg(sock, data, conv)] on the octets of one frame.  A frame that
     does not decode is dropped. *)
-Definition recv_frame_r (conv : N) (st : rx) (bs : bytes) : rx * bool :=
+Definition recv_frame_r (conv : chan) (st : rx) (bs : bytes) : rx * bool :=
   match decode_frame bs with
   | Some f => recv_msgs conv st (f_msgs f)
   | None => (st, false)
   end.
 
-Definition recv_frame (conv : N) (st : rx) (bs : bytes) : rx := fst (recv_frame_r conv st bs).
+Definition recv_frame (conv : chan) (st : rx) (bs : bytes) : rx := fst (recv_frame_r conv st bs).
 
 Definition queued (st : rx) : list bytes := map snd (r_queue st).
 
@@ -516,17 +536,21 @@ Definition run_send (c : list N * N * N * N) : list bytes :=
 Definition run_send_big (c : list N * N * N * N) : list (N * bytes * N) :=
   map (fun f => (blen f, firstn 24 f, digest f)) (run_send c).
 
+Definition o_chan (c : chan) := (c_if c, c_peer c, c_local c, o_opt (c_vlan c)).
+Definition i_chan (t : N * N * N * list N) : chan :=
+  let '(i, p, l, v) := t in mkChan i p l (hd_error v).
+
 Definition o_xfer (e : key * xfer) :=
-  (fst e, o_opt (x_end (snd e)), map fst (x_segs (snd e))).
+  (o_chan (fst (fst e)), snd (fst e), o_opt (x_end (snd e)), map fst (x_segs (snd e))).
 
 Definition o_rx (st : rx) :=
   (map o_xfer (r_prog st), r_queue st, r_signals st, r_timers st).
 
-Fixpoint recv_trace (st : rx) (frames : list (N * bytes)) : list (nat * bool) * rx :=
+Fixpoint recv_trace (st : rx) (frames : list (N * N * N * list N * bytes)) : list (nat * bool) * rx :=
   match frames with
   | [] => ([], st)
   | (cv, f) :: t =>
-      let '(st', raised) := recv_frame_r cv st f in
+      let '(st', raised) := recv_frame_r (i_chan cv) st f in
       let '(tr, fin) := recv_trace st' t in
       ((length (r_signals st'), raised) :: tr, fin)
   end.
@@ -534,7 +558,7 @@ Fixpoint recv_trace (st : rx) (frames : list (N * bytes)) : list (nat * bool) * 
 (** Receive case: (conversation, frame octets) in arrival order.  Result:
     number of signals so far and the raised flag after each frame, then the
     final state. *)
-Definition run_recv (c : list (N * bytes)) :=
+Definition run_recv (c : list (N * N * N * list N * bytes)) :=
   let '(tr, fin) := recv_trace rx_init c in (tr, o_rx fin).
 
 (** Receive case for generated transfers: (mtu, xid, seed, len, arrival order
@@ -545,8 +569,22 @@ Definition run_xfer (c : N * N * N * N * list nat) :=
   let '(mtu, xid, seed, len, order) := c in
   let data := gdata seed len in
   let frames := send_transfer (Some mtu) xid data in
-  let arrival := map (fun i => (1, nth i frames [])) order in
+  let arrival := map (fun i => ((1, 1, 255, @nil N), nth i frames [])) order in
   let '(tr, fin) := recv_trace rx_init arrival in
   (map fst tr, map (fun d => (blen d, digest d)) (queued fin), r_signals fin,
    map o_xfer (r_prog fin), r_timers fin,
    match queued fin with [d] => bytes_eqb d data | _ => false end).
+
+(** Receive case with several transfers in progress at once: transfers
+    (channel, mtu, xid, seed, len) and the arrival as (transfer number, frame
+    position) pairs.  Result: signal count after each arrival, the queue as
+    (id, length, digest), the signals (id, length, peer), transfers still in
+    progress, timers. *)
+Definition run_multi (c : list (N * N * N * list N * N * N * N * N) * list (nat * nat)) :=
+  let xfers := map (fun t => let '(cv, mtu, xid, seed, len) := t in
+                             (cv, send_transfer (Some mtu) xid (gdata seed len))) (fst c) in
+  let arrival := map (fun a => let '(cv, frames) := nth (fst a) xfers ((0, 0, 0, []), []) in
+                               (cv, nth (snd a) frames [])) (snd c) in
+  let '(tr, fin) := recv_trace rx_init arrival in
+  (map fst tr, map (fun e => (fst e, blen (snd e), digest (snd e))) (r_queue fin), r_signals fin,
+   map o_xfer (r_prog fin), r_timers fin).
